@@ -171,7 +171,8 @@ def register(R):
                seek=ExtSpec(raises=('Exception',), effect=src_seek_effect),
                close=ExtSpec(raises=('Exception',)),
                write=ExtSpec(raises=('Exception',)),
-               seekable=ExtSpec(returns=Bool, pure=True), readable=ExtSpec(returns=Bool, pure=True))
+               seekable=ExtSpec(returns=Bool, pure=True), readable=ExtSpec(returns=Bool, pure=True),
+               signal_transferring=ExtSpec(raises=()), signal_not_transferring=ExtSpec(raises=()))
     R.stream_state = stream
 
     # ------------------------------------------------------------------ upload input managers
